@@ -371,6 +371,7 @@ func InstForms() []form {
 	add("stack.i", "PUSH", "imm")
 	add("int", "INT", "imm8")
 	add("ret", "RET")
+	add("ret.i", "RET", "imm")
 	add("lgdt", "LGDT", "mem")
 	return fs
 }
